@@ -12,7 +12,7 @@ import (
 )
 
 type Act struct {
-	K    string // we (WriteErrorString N B; to the model: wh N, w B) | sa with an empty V = SetAttribute(B, nil) | w | ws (io.WriteString on the raw writer; a "w" to the model) | hj (Hijack; nothing to the model) | wh | ah | sa | panic
+	K    string // pp (req.PathParameters()[B] = V; nothing to the model, see ppGuard in real.go) | we (WriteErrorString N B; to the model: wh N, w B) | sa with an empty V = SetAttribute(B, nil) | w | ws (io.WriteString on the raw writer; a "w" to the model) | hj (Hijack; nothing to the model) | wh | ah | sa | panic
 	B, V string
 	N    int
 }
@@ -43,6 +43,16 @@ type Cfg struct {
 	Provider  string // "pool" | "bounded0" | "bounded1" | "bounded2"
 	Late      bool   // settings and the last container filter are applied after registrations / warm-up traffic (not part of the model's input: the answers must not depend on it)
 	CustomErr bool   // a ServiceErrorHandler of the harness writes "E<code>" instead of the library's message text
+	// Order is the registration order of a WebService's filters relative to its routes and to
+	// Container.Add (not part of the model's input: C06 speaks of "the WebService's filters", whenever
+	// they were given to it): 0 = every ws.Filter before the first ws.Route; 1 = after the last
+	// ws.Route, before Container.Add; 2 = after Container.Add; 3 = the first filter before the routes,
+	// the others one by one after each ws.Route (the rest after Container.Add).
+	Order int
+	// RouterErr: the container's RouteSelector is a wrapper of the harness around the built-in router
+	// that refuses requests for RouterErrPath with a plain error value (not a restful.ServiceError).
+	// Not sent to the model: requests for that path are sent under an entry of their own.
+	RouterErr bool
 }
 
 type SReq struct {
@@ -51,6 +61,20 @@ type SReq struct {
 	Prior     string // Content-Encoding already present on the writer
 	CondPanic string
 	Entry     string
+	// RouterErr: the request is for RouterErrPath on a container whose RouteSelector refuses it with a
+	// plain error (entry "dispatch" or "serveDispatch"; to the driver: "routerErr" / "serveRouterErr")
+	RouterErr bool
+}
+
+// DriverEntry is the entry atom of the protocol line.
+func (r SReq) DriverEntry() string {
+	if r.RouterErr {
+		if r.Entry == "serveDispatch" {
+			return "serveRouterErr"
+		}
+		return "routerErr"
+	}
+	return r.Entry
 }
 
 func actSx(a Act) *sx.Node {
@@ -73,6 +97,9 @@ func actsSx(kw string, as []Act) *sx.Node {
 	for _, a := range as {
 		if a.K == "hj" {
 			continue // taking the connection over changes nothing the framework decides
+		}
+		if a.K == "pp" {
+			continue // a write into the request's own parameter map: not observed within the request (ppGuard), must not be observable from another
 		}
 		if a.K == "we" {
 			n.List = append(n.List, sx.K("wh", sx.N(a.N)), sx.K("w", sx.H(a.B)))
@@ -160,6 +187,13 @@ type Result struct {
 	// the request was served, counted through the package logger (one "recover from panic situation"
 	// entry per call; see recoverLog in real.go). Sequential serving only; not part of Canon.
 	RecovDefault int
+
+	// CondRan: an If-condition of the harness was evaluated for this request with the panic header set
+	// (so the panic was raised inside route selection). Not part of Canon.
+	CondRan bool
+	// Leaks: path parameters of the reserved family (ppPrefix) a stage saw although this request had
+	// not written them: they come from another request. Not part of Canon (C19 looks at them).
+	Leaks [][2]string
 }
 
 func kvs(kw string, l [][2]string, sortKeys bool) string {
